@@ -84,6 +84,17 @@ def _cases(tier):
     for k in keys:
         for v in kv:
             cases.append({"e": [v.expr], "op": "[k]", "pl": "inline", "k": [k]})
+    # empty and almost empty containers as the value under a key (their code equals that of "nothing recorded here")
+    empties = ["{}", "[]", "()", "set()", "frozenset()", "''", "b''", "{'a': {}}", "[{}]", "{'a': []}", "({},)", "dict()", "defaultdict(list)", "None", "0", "False"]
+    for k in keys[:4]:
+        for v in empties:
+            cases.append({"e": [v], "op": "[k]", "pl": "inline", "k": [k]})
+            cases.append({"e": [v, "1"], "op": "[k]", "pl": "local", "k": [k, "'other'"]})
+            cases.append({"e": [v], "op": "[k]", "pl": "local", "k": [[k, "'sub'"]]})
+    for v in empties:
+        cases.append({"e": [v], "op": "==", "pl": "inline"})
+        cases.append({"e": [v], "op": "in", "pl": "inline"})
+        cases.append({"e": [v, v], "op": "in", "pl": "local"})
     for k1 in keys:
         for k2 in keys:
             if k1 != k2:
